@@ -102,7 +102,7 @@ func (s *xscanner) readTextLiteral(buf *bytes.Buffer) {
 		if ch == '"' && !escaped {
 			break
 		} else if ch == '\\' {
-			escaped = true
+			escaped = !escaped // a backslash which is itself escaped doesn't escape what follows
 		} else {
 			escaped = false
 		}
